@@ -115,7 +115,7 @@ class RCBase(Contract):
                 rest += [bs == t._start, be == t._end]
             for a, b in itertools.combinations(tasks, 2):
                 rest.append(spec.disjoint(a._start, a._end, b._start, b._end))
-            aux = fresh_consts(A, tasks, pb, extra_known=[f"w_busy_{t.name}_start" for t in tasks] + [f"w_busy_{t.name}_end" for t in tasks])
+            aux = fresh_consts(A, tasks, pb, extra_known=[x for t in tasks for x in busy(ctx["res"], t)])
             goal = z3.Exists(aux, And(*A)) if aux else And(*A)
             out.append(
                 Clause("complete", goal, hyps=valid + rest + [M] + self.complete_hyps(P, ctx, case), props=("C05", "C06") if any(t.optional for t in tasks) else ("C05",), kind="complete", bounded=self.bounded, regions=self.complete_regions(P, ctx, case))
@@ -619,12 +619,15 @@ def left_out_clauses(self, P, ctx, case):
         hz, H = pb._horizon, pb.horizon
         for t in ctx["tasks"]:
             if t.optional and len(ctx["tasks"]) == 1:
-                pp = z3.IntVal(spec.past_point(t))
                 bs, be = busy(ctx["res"], t)
-                wit = [(t._start, pp), (t._end, pp), (bs, pp), (be, pp)]
-                if hasattr(t, "_duration"):
-                    wit.append((t._duration, z3.IntVal(0)))
-                goal = z3.substitute(And(*A), *wit)
+                if spec.parking(t) is None:
+                    goal = z3.Exists(spec.unscheduled_unknowns(t) + [bs, be], And(*A))
+                else:
+                    pp = z3.IntVal(spec.past_point(t))
+                    wit = [(t._start, pp), (t._end, pp), (bs, pp), (be, pp)]
+                    if hasattr(t, "_duration"):
+                        wit.append((t._duration, z3.IntVal(0)))
+                    goal = z3.substitute(And(*A), *wit)
                 if ctx.get("direct") is False:
                     # chosen through a selection: the selection flags and the other worker's interval are
                     # auxiliary too -- some value of them must do
@@ -688,7 +691,7 @@ class SelBase(Contract):
             spec.cmp_kind(case["kind"], spec.count(list(ctx["s1"]._selection_dict.values())), case["n1"]),
             spec.cmp_kind(case["kind"], spec.count(list(ctx["s2"]._selection_dict.values())), case["n2"]),
         ]
-        aux = fresh_consts(A, [t1, t2], pb, extra_known=[str(v) for s in (ctx["s1"], ctx["s2"]) for v in s._selection_dict.values()])
+        aux = fresh_consts(A, [t1, t2], pb, extra_known=[v for s in (ctx["s1"], ctx["s2"]) for v in s._selection_dict.values() if isinstance(v, z3.ExprRef)])
         goal = z3.Exists(aux, And(*A)) if aux else And(*A)
         out.append(Clause("complete", goal, hyps=valid + counts + [M], props=("C05",), kind="complete", bounded=self.bounded, regions=self.complete_regions(ctx, case)))
         return out
